@@ -52,6 +52,9 @@ fn main() {
     let args: Vec<String> = std::env::args().collect();
     let cmd = args.get(1).map(|s| s.as_str()).unwrap_or("");
     match cmd {
+        "c17-massif-case" => {
+            props::c17::massif_case_body(args.get(2).map(|s| s.as_str()).unwrap_or("baseline"));
+        }
         "probe-deep" => {
             // vmon probe-deep <which 2|3> <depth> <stack_kb>: parse a deep nesting on a thread with the given stack size
             let which: u64 = args[2].parse().unwrap();
